@@ -28,7 +28,12 @@ func gCompletion(src string, bs *schema.BodySchema, prefill bool) {
 	verifReach("end")
 }
 
-func gCheckCandidates(cs lang.Candidates, pos hcl.Pos) {
+func gCheckCandidates(cs lang.Candidates, pos hcl.Pos) { gCheckCandidatesFrom(cs, pos, 1) }
+
+// gCheckCandidatesFrom: first = the number the snippet's tab stops start at; 0: at the smallest
+// one used (the property asks for consecutive numbers, each once - not for a start at 1: with
+// pre-filling on, a label candidate's snippet starts at ${2}).
+func gCheckCandidatesFrom(cs lang.Candidates, pos hcl.Pos, first int) {
 	at := verifCursorTag()
 	verifAssert(len(cs.List) <= 100, "C06:limit")
 	for _, c := range cs.List {
@@ -39,7 +44,22 @@ func gCheckCandidates(cs lang.Candidates, pos hcl.Pos) {
 			verifAssert(verifBlankBetween("test.tf", r.End.Byte, pos.Byte), "C06:edit-reaches-cursor"+at)
 		}
 		// text forms: tab stops of the snippet are numbered from 1, consecutively, each once
-		verifCheckStops(verifSnippetStops(c.TextEdit.Snippet), 1, "candidate-snippet")
+		stops := verifSnippetStops(c.TextEdit.Snippet)
+		from := first
+		if from == 0 {
+			for _, s := range stops {
+				if verifIsSymbolic(s) {
+					from = 1
+					break
+				}
+				if s != 0 && (from == 0 || s < from) {
+					from = s
+				}
+			}
+		}
+		if from > 0 {
+			verifCheckStops(stops, from, "candidate-snippet")
+		}
 	}
 }
 
